@@ -181,6 +181,87 @@ def refit_sequences(run):
                             theorem="C01 (recovery; not a theorem)")
 
 
+def geometry_cases(run):
+    """exact curves for a measurement geometry with gcf_k != 1 (the model
+    sees gcf_k times the measured indentation), the contact point limited by
+    the user to an interval that holds the true contact point in measured
+    and in corrected units: E, contact point (measured units, inside the
+    user's limits) and baseline must be recovered"""
+    from nanite import model
+    n = 10 if run.tier == "quick" else 120
+    for i in range(n):
+        cfg = one_case(run.rng, i, run.tier)
+        mk, true = cfg["model"], dict(cfg["true"])
+        k = [0.5, 2.0, 0.7, 1.0][i % 4]
+        cp = true["contact_point"]
+        if abs(cp) < 2e-7:
+            cp = 3e-7 if i % 2 else -3e-7
+        true["contact_point"] = cp
+        limited = i % 3 != 2
+        lo = min(cp, k * cp) - 0.1 * abs(cp)
+        hi = max(cp, k * cp) + 0.1 * abs(cp)
+        gcfg = {"geometry-case": i, "model": mk, "gcf_k": k,
+                "limits": [lo, hi] if limited else None, "true": true,
+                "n_app": cfg["n_app"]}
+        key = "gcf:" + common.sha(gcfg)[:16]
+        run.case(gcfg, kind=f"geometry-{mk}")
+        ekey = "E_S" if mk.startswith("power_layer") else "E"
+        try:
+            md = model.models_available[mk]
+            cols = fits.model_curve(mk, true, n_app=cfg["n_app"],
+                                    n_ret=cfg["n_app"] // 2)
+            x = np.asarray(cols["tip position"], float)
+            vals = md.get_parameter_defaults()
+            for name in vals:
+                if name in true:
+                    vals[name].set(value=true[name])
+            vd = vals.valuesdict()
+            vd["contact_point"] = cp * k
+            vd["baseline"] = 0.0
+            cols["force"] = md.module.model_func(x * k, **vd)
+            cols["height (measured)"] = x - cols["force"] / .05
+            fmax = float(np.max(np.abs(cols["force"])))
+            span = float(np.ptp(x))
+            idnt = curves.make_indentation(cols)
+            p = md.get_parameter_defaults()
+            for name in p:
+                if name in true and name not in (ekey, "contact_point",
+                                                 "baseline"):
+                    p[name].set(value=true[name])
+            if mk.startswith("power_layer"):
+                p["E_L"].set(vary=False)
+                p["t"].set(vary=False)
+            p[ekey].set(value=true[ekey] * 1.3)
+            p["contact_point"].set(value=cp + 0.02 * abs(cp))
+            if limited:
+                p["contact_point"].set(min=lo, max=hi)
+            with warnings.catch_warnings():
+                warnings.simplefilter("ignore")
+                idnt.fit_model(model_key=mk, params_initial=p, segment=0,
+                               gcf_k=k, weight_cp=0, range_x=[0, 0],
+                               method="leastsq")
+            fp = idnt.fit_properties
+            if not fp.get("success"):
+                why = "fit reports success False"
+            else:
+                pf = fp["params_fitted"]
+                eE = abs(pf[ekey].value / true[ekey] - 1)
+                ec = abs(pf["contact_point"].value - cp) / span
+                eb = abs(pf["baseline"].value) / fmax
+                te, tc, tb = TOL["leastsq"]
+                why = None
+                if eE > te or ec > tc or eb > tb:
+                    why = (f"recovered E {eE:.2e}, cp {ec:.2e} (reported "
+                           f"{pf['contact_point'].value!r}, true {cp!r}), "
+                           f"baseline {eb:.2e} exceed {TOL['leastsq']}")
+        except BaseException as e:
+            why = f"raised {type(e).__name__}: {e}"
+        if why:
+            run.failing(SITE, key, f"{gcfg}: {why}",
+                        payload={"kind": "rerun"}, observed=why,
+                        theorem="C01 (recovery; not a theorem)")
+
+
 def check(run):
     run.sources = common.source_digests(["src/nanite/fit.py",
                                          "src/nanite/indent.py",
@@ -260,6 +341,7 @@ def check(run):
             fail(f"fitted curve deviates from the data by {d:.2e} Fmax on "
                  "the fitted segment")
     refit_sequences(run)
+    geometry_cases(run)
     run.rule = ("ground truth from the implementation's own model functions: "
                 "5 models x parameters in bounds (E over 3.5 decades) x 50-"
                 "2000 points, uniform/jittered sampling x approach/retract x "
